@@ -60,4 +60,18 @@ PROPS = {
         "assumptions": ["bufio.Reader and io.ReadFull behave as documented (modelled as the Buffered() oracle)"],
         "shards": {"quick": 1, "thorough": 8},
     },
+    "C17": {
+        "modules": ["Capnp.Props.C17"],
+        "gen": False,
+        "rule": "pairs of spec-valid messages: the same value tree in two random layouts; the tree vs its re-encoding in another schema "
+                "version (structs padded/truncated by zero words and null pointers, primitive/pointer/void lists upgraded to struct lists), "
+                "both argument orders; the tree vs a minimal perturbation (one data bit, one bit of a bit list, bit<->void list, null<->empty "
+                "struct, pointer nulled, capability index, non-zero trailing word), both orders and against the padded version; unrelated trees. "
+                "capnp.Equal's answer is compared (S) with Spec.Value.eq of the two trees obtained by the Lean spec decoder. Capability "
+                "tables of both messages hold the same 8 clients. Non-trivial: all; distinct by hash.",
+        "trusted": COMMON_TRUSTED + ["Spec.Value.eq transcribes the doc comment of capnp.Equal (bit lists equal only bit lists; primitive lists of different widths are unequal)"],
+        "assumptions": [],
+        "shards": {"quick": 4, "thorough": 16},
+        "no_panic": ["read "],
+    },
 }
